@@ -210,6 +210,18 @@ def dedup : List ReqId → List ReqId
   | [] => []
   | r :: t => if r ∈ t then dedup t else r :: dedup t
 
+/-! ### CUT (`release` after the request context ended / the handler returned) and WFAIL -/
+
+def release {α} (ex : ExId) : List (Stream α) → List (Stream α)
+  | [] => []
+  | s :: t => (if s.attached = some ex then { s with attached := none, opn := false } else s) :: release ex t
+
+def cut {α} (c : Conn α) (ex : ExId) : Conn α :=
+  finish { c with streams := release ex c.streams } ex
+
+def wfail {α} (c : Conn α) (ex : ExId) : Conn α :=
+  { c with exs := setEx ex (fun e => { e with budget := some 0 }) c.exs }
+
 /-! ### POST (`servePOST`) -/
 
 def post {α} (c : Conn α) (calls : List ReqId) (listen : Bool) (ver : Ver) (budget : Option Nat) : Conn α :=
@@ -238,7 +250,9 @@ def post {α} (c : Conn α) (calls : List ReqId) (listen : Bool) (ver : Ver) (bu
                                   reqStreams := calls.map (fun r => (r, sid)) ++ c.reqStreams,
                                   exs := c.exs ++ [e], hist := c.hist ++ [(sid, calls, listen)],
                                   store := if primed then appendLog sid none st1 else st1 }
-      if primed then (emit c2 ex (.prime sid 0)).1 else c2
+      let c3 := if primed then (emit c2 ex (.prime sid 0)).1 else c2
+      -- publish, then `hangResponse`: on a closed session (`c.done` closed) the handler returns at once
+      if c.isDone then cut c3 ex else c3
 
 /-! ### WRITE (`streamableServerConn.Write` + `deliverLocked`) -/
 
@@ -304,18 +318,6 @@ def writeR {α} (c : Conn α) (msg : Msg α) (ctx : Option ReqId) (ctxNew : Bool
                          else { c2 with streams := setStream { s with requests := reqs } c2.streams }
       (c3, if useStore then .ok else .rejected)
 
-/-! ### CUT (`release` after the request context ended / the handler returned) and WFAIL -/
-
-def release {α} (ex : ExId) : List (Stream α) → List (Stream α)
-  | [] => []
-  | s :: t => (if s.attached = some ex then { s with attached := none, opn := false } else s) :: release ex t
-
-def cut {α} (c : Conn α) (ex : ExId) : Conn α :=
-  finish { c with streams := release ex c.streams } ex
-
-def wfail {α} (c : Conn α) (ex : ExId) : Conn α :=
-  { c with exs := setEx ex (fun e => { e with budget := some 0 }) c.exs }
-
 /-! ### GET (`serveGET` / `acquireStream`) -/
 
 /-- the stored payloads after index `from − 1`, empty ones skipped (as `acquireStream` does) -/
@@ -360,8 +362,11 @@ def get {α} (c : Conn α) (hdr : Hdr) (ver : Ver) (budget : Option Nat) : Conn 
         | none => finish r.1 ex                        -- temporary (replay-only) stream
         | some s =>
           if s.requests.isEmpty && s.id != 0 then finish r.1 ex      -- `doneLocked`
-          else { r.1 with streams := setStream { s with attached := some ex, opn := true,
-                                                        next := «from» + items.length, v1125 := ver.ge1125 } r.1.streams }
+          else
+            let s' : Stream α := { s with attached := some ex, opn := true, next := «from» + items.length, v1125 := ver.ge1125 }
+            let c4 : Conn α := { r.1 with streams := setStream s' r.1.streams }
+            -- `hangResponse` returns at once on a closed session
+            if c.isDone then cut c4 ex else c4
 
 /-! ### SCLOSE (`CloseSSEStream` → `stream.close`) and END (`Close`) -/
 
